@@ -1392,3 +1392,60 @@ Proof. eexists. eexists. split; [vm_compute; reflexivity|]. reflexivity. Qed.
 (* the measure on the example: it starts at (3, 1, _) *)
 Example ex_measure : meas (init ex_clients) = (3, 1, 2).
 Proof. vm_compute. reflexivity. Qed.
+
+(* ------------------------------------------------------------------ *)
+(** * C01, happens-before clause: delivery order is the real-time order of the pushes *)
+
+Definition pushes (ls : list label) : list msg :=
+  flat_map (fun l => match l with LPush m => [m] | _ => [] end) ls.
+
+Lemma step_pushed_label c s i s' l :
+  step c s i = Some (s', l) -> pushed s' = pushed s ++ pushes [l].
+Proof. step_cases s i Hn; cbn [pushes flat_map app]; rewrite ?app_nil_r; reflexivity. Qed.
+
+Lemma pushes_app a b : pushes (a ++ b) = pushes a ++ pushes b.
+Proof. apply flat_map_app. Qed.
+
+Lemma run_sched_pushed c sched : forall s s' ls,
+  run_sched c s sched = Some (s', ls) -> pushed s' = pushed s ++ pushes ls.
+Proof.
+  induction sched as [|i r IH]; intros s s' ls H; cbn [run_sched] in H.
+  - injection H as <- <-. cbn. rewrite app_nil_r. reflexivity.
+  - destruct (step c s i) as [[s1 l]|] eqn:E; [|discriminate].
+    destruct (run_sched c s1 r) as [[s2 ls2]|] eqn:E2; [|discriminate]. injection H as <- <-.
+    rewrite (IH _ _ _ E2), (step_pushed_label _ _ _ _ _ E).
+    change (l :: ls2) with ([l] ++ ls2). rewrite pushes_app, app_assoc. reflexivity.
+Qed.
+
+(* the push order of a run is the order of its LPush labels *)
+Theorem pushed_is_push_order c started clients sched s ls :
+  run_sched c (start_of started clients) sched = Some (s, ls) -> pushed s = pushes ls.
+Proof. intros H. rewrite (run_sched_pushed _ _ _ _ _ H). destruct started; reflexivity. Qed.
+
+(* if the Push of m1 (by whichever thread) comes before the Push of m2 in the
+   schedule -- which is what any happens-before between the two sends implies --
+   then, once all threads have finished, m1 was handed to the receiver before
+   m2; more precisely the receiver saw exactly the pushes, in schedule order *)
+Theorem C01_happens_before_order_thm bnd started clients sched s ls :
+  clients_valid started clients -> started || has_starter clients = true ->
+  pills_in (program_msgs clients) = false ->
+  run_sched {| bound := bnd |} (start_of started clients) sched = Some (s, ls) ->
+  quiescent s = true ->
+  delivered s = pushes ls /\
+  forall l1 m1 l2 m2 l3, ls = l1 ++ LPush m1 :: l2 ++ LPush m2 :: l3 ->
+    delivered s = pushes l1 ++ m1 :: pushes l2 ++ m2 :: pushes l3.
+Proof.
+  intros Hc Hs HP Hrun Hq.
+  assert (Hr : reach {| bound := bnd |} (start_of started clients) s)
+    by (eapply run_sched_reach; [apply reach_refl|exact Hrun]).
+  destruct (C03_quiescent_is_drained_thm _ _ _ _ (clients_started_start _ _ Hc Hs) HP Hr Hq) as (_ & _ & E & _).
+  rewrite E, (pushed_is_push_order _ _ _ _ _ _ Hrun). split; [reflexivity|].
+  intros l1 m1 l2 m2 l3 ->.
+  change (LPush m1 :: l2 ++ LPush m2 :: l3) with ([LPush m1] ++ l2 ++ [LPush m2] ++ l3).
+  rewrite !pushes_app. reflexivity.
+Qed.
+
+Example ex_happens_before :
+  exists s ls, run_sched ex_c (init ex_clients) ex_sched = Some (s, ls) /\
+    pushes ls = [1; 2; 3] /\ delivered s = [1; 2; 3].
+Proof. eexists. eexists. split; [vm_compute; reflexivity|]. split; reflexivity. Qed.
